@@ -373,6 +373,9 @@ def check(prog, run):
 
     check_numeric_conversions(prog, run, "I4")
     check_element_type(prog, run, "L1", cv, clv, vfa)
+    # the configured Python names and defaults survive every rebuild of an argument / input field (shared with C14.C2)
+    from . import c14
+    c14.check_copy_sources(prog, run, "R1")
     check_default_only_when_absent(prog, run, "D1")
     from . import c04
     c04.check_context_threading(prog, run, "V1")
